@@ -76,6 +76,11 @@ func (e *Exec) intrinsic(th *Thread, fn *ssa.Function, args []Value) (Value, boo
 			return e.noopResult(fn, args), true
 		}
 	}
+	// SSZ hash-tree-root: uninterpreted function of the receiver's contents
+	if fn.Name() == "HashTreeRoot" && fn.Signature.Recv() != nil && fn.Signature.Results().Len() == 2 && fn.Signature.Params().Len() == 0 {
+		e.stubs["uf:HashTreeRoot"]++
+		return e.hashTreeRoot(fn, args[0]), true
+	}
 	// vouch metrics helpers: package-level functions named monitor*
 	if strings.HasPrefix(pp, e.P.modPath) && fn.Signature.Recv() == nil && strings.HasPrefix(fn.Name(), "monitor") {
 		e.stubs["noop:monitor*"]++
@@ -132,6 +137,27 @@ func isContextType(t types.Type) bool {
 // invokeSpecial handles interface method calls on engine-native receivers.
 func (e *Exec) invokeSpecial(th *Thread, recv IfaceV, call *ssa.CallCommon, args []Value) Value {
 	switch rv := recv.v.(type) {
+	case *HashV:
+		m := call.Method.Name()
+		return &NativeFn{name: "hash." + m, f: func(th *Thread, a []Value) Value {
+			switch m {
+			case "Write":
+				b := sliceArg(a[0])
+				rv.buf = append(rv.buf, b...)
+				return TupleV{e.intConst(64, int64(len(b))), IfaceV{}}
+			case "Sum":
+				out := append(SliceV{}, sliceArg(a[0])...)
+				return append(out, e.hashUF(rv.name, rv.buf, rv.size)...)
+			case "Reset":
+				rv.buf = nil
+				return nil
+			case "Size":
+				return e.intConst(64, int64(rv.size))
+			case "BlockSize":
+				return e.intConst(64, 64)
+			}
+			panic(pathAbort{"error", "hash method " + m})
+		}}
 	case *CtxV:
 		m := call.Method.Name()
 		return &NativeFn{name: "ctx." + m, f: func(th *Thread, a []Value) Value { return e.ctxMethod(th, rv, m, a) }}
@@ -579,6 +605,11 @@ func (e *Exec) hashUF(name string, in []Value, n int) ArrayV {
 	}
 	out := make(ArrayV, n)
 	for i := 0; i < n; i++ {
+		if i >= 8 && i != n-1 && !e.opts.FullBytes {
+			// hash outputs: first eight and last byte uninterpreted, the rest zero
+			out[i] = c.BVConst(8, 0)
+			continue
+		}
 		if len(args) == 0 {
 			out[i] = c.Var(fmt.Sprintf("%s_empty_%d", name, i), BV(8))
 		} else {
@@ -588,8 +619,102 @@ func (e *Exec) hashUF(name string, in []Value, n int) ArrayV {
 	return out
 }
 
+// flatten lists the scalar terms a value is made of (following pointers).
+func (e *Exec) flatten(v Value, out *[]*Term, shape *strings.Builder, depth int) {
+	if depth > 12 {
+		return
+	}
+	switch x := v.(type) {
+	case *Term:
+		*out = append(*out, x)
+		shape.WriteString(x.sort.String())
+	case StructV:
+		shape.WriteString("{")
+		for _, f := range x {
+			e.flatten(f, out, shape, depth+1)
+		}
+		shape.WriteString("}")
+	case ArrayV:
+		shape.WriteString("[")
+		for _, f := range x {
+			e.flatten(f, out, shape, depth+1)
+		}
+		shape.WriteString("]")
+	case SliceV:
+		fmt.Fprintf(shape, "s%d(", len(x))
+		for _, f := range x {
+			e.flatten(f, out, shape, depth+1)
+		}
+		shape.WriteString(")")
+	case *Value:
+		if x == nil {
+			shape.WriteString("nil")
+			return
+		}
+		shape.WriteString("*")
+		e.flatten(*x, out, shape, depth+1)
+	case IfaceV:
+		if x.t != nil {
+			shape.WriteString("i:" + x.t.String())
+			e.flatten(x.v, out, shape, depth+1)
+		}
+	case string:
+		shape.WriteString("str:" + x)
+	}
+}
+
+func (e *Exec) hashTreeRoot(fn *ssa.Function, recv Value) Value {
+	var terms []*Term
+	var shape strings.Builder
+	shape.WriteString(fn.Signature.Recv().Type().String())
+	e.flatten(recv, &terms, &shape, 0)
+	// drop constants from the argument list but keep them in the name
+	var args []*Term
+	for i, t := range terms {
+		if t.IsConst() {
+			fmt.Fprintf(&shape, "|%d=%s", i, t.c.String())
+		} else {
+			args = append(args, t)
+		}
+	}
+	h := fnv64(shape.String())
+	name := fmt.Sprintf("htr_%x", h)
+	out := make(ArrayV, 32)
+	for i := range out {
+		if i >= 4 && i != 31 {
+			out[i] = e.ctx.BVConst(8, 0)
+			continue
+		}
+		if len(args) == 0 {
+			out[i] = e.ctx.BVConstU(8, (h>>(8*uint(i%8)))&0xff)
+		} else {
+			out[i] = e.ctx.App(fmt.Sprintf("%s_b%d", name, i), BV(8), args...)
+		}
+	}
+	return TupleV{out, IfaceV{}}
+}
+
+func fnv64(s string) uint64 {
+	h := uint64(1469598103934665603)
+	for i := 0; i < len(s); i++ {
+		h ^= uint64(s[i])
+		h *= 1099511628211
+	}
+	return h
+}
+
 func init() {
 	I := intrinsics
+	I["(*sync.Pool).Get"] = func(e *Exec, th *Thread, fn *ssa.Function, a []Value) Value {
+		p := a[0].(*Value)
+		newf := (*p).(StructV)
+		nf := newf[len(newf)-1]
+		if isNilValue(nf) {
+			return IfaceV{}
+		}
+		return e.callSync(th, nf, nil)
+	}
+	I["(*sync.Pool).Put"] = func(e *Exec, th *Thread, fn *ssa.Function, a []Value) Value { return nil }
 	// ---- errors ----
 	I["errors.New"] = func(e *Exec, th *Thread, fn *ssa.Function, a []Value) Value { return e.newError(a[0], nil) }
 	I["github.com/pkg/errors.New"] = I["errors.New"]
@@ -816,6 +941,10 @@ func init() {
 		return e.hashUF("sha256", sliceArg(a[0]), 32)
 	}
 
+	I["crypto/sha256.New"] = func(e *Exec, th *Thread, fn *ssa.Function, a []Value) Value {
+		p := e.P.prog.ImportedPackage("crypto/sha256")
+		return IfaceV{t: types.NewPointer(p.Type("digest").Type()), v: &HashV{name: "sha256", size: 32}}
+	}
 	// ---- math/big minimal: handled through SSA (pure Go paths) ----
 
 	// ---- runtime ----
